@@ -127,7 +127,12 @@ NodeWith(c) == A(<<110, c, 64, 104>>)
 IdSweep == UNION { { VPid(Node1, <<0,0,0,x>>, <<0,0,0,2>>, <<0,0,0,3>>, <<>>), VPid(Node1, <<0,0,0,1>>, <<0,0,x,0>>, <<0,0,0,3>>, <<>>), VPid(Node1, <<0,0,0,1>>, <<0,0,0,2>>, <<x,0,0,1>>, <<>>),
                      VPort(Node1, <<0,0,0,0,0,x,0,5>>, <<0,0,0,1>>, <<>>), VRef(Node1, <<0,0,0,2>>, <<<<0,0,0,1>>, <<0,x,0,2>>>>, <<>>) } : x \in 0..255 }
            \cup { VPid(NodeWith(c), <<0,0,0,1>>, <<0,0,0,2>>, <<0,0,0,3>>, <<>>) : c \in 33..126 }
-IdSweepAll == IdSweep \cup { [i EXCEPT !.loc = <<9,8,7,6,5,4,3,2>>] : i \in IdSweep }
+\* ... and every byte value at every position of the opaque hash of the node-local form (the hash is the peer's: no byte of it means anything here)
+HashWith(p, x) == [k \in 1..8 |-> IF k = p THEN x ELSE 8 - k + 2]
+HashSweep == UNION { { [Pid1 EXCEPT !.loc = HashWith(p, x)] : p \in 1..8 }
+                     \cup { [VPort(Node1, <<0,0,0,0,0,0,0,5>>, <<0,0,0,1>>, <<>>) EXCEPT !.loc = HashWith(p, x)] : p \in {1, 2, 8} }
+                     \cup { [VRef(Node1, <<0,0,0,2>>, <<<<0,0,0,1>>, <<0,0,0,2>>>>, <<>>) EXCEPT !.loc = HashWith(p, x)] : p \in {1, 2, 8} } : x \in 0..255 }
+IdSweepAll == IdSweep \cup { [i EXCEPT !.loc = <<9,8,7,6,5,4,3,2>>] : i \in IdSweep } \cup HashSweep
 IdUniverse == UNION { InContexts(i) : i \in IdPlain \cup IdLocal } \cup IdSweepAll \cup { VTuple(<<SmallInt(1), i>>) : i \in IdSweepAll }
 \* node-local form wrapping the encoding the peer happened to use for the identifier (legacy / 32-bit tags):
 \* records [v |-> value, enc |-> bytes]; re-encoding must give these bytes back
